@@ -94,6 +94,9 @@ def direct_session(R, hist, mini, multi, shape, repkind):
     return events, base_cfg(mini, multi, "direct")
 
 
+from geneticengine.algorithms.gp.operators.evaluation import EvaluateStep  # noqa: E402
+
+
 GP_STEPS = {
     "default": lambda: default_generic_programming_step(),
     "sel-mut": lambda: SequenceStep(TournamentSelection(2), GenericMutationStep(1.0)),
@@ -103,6 +106,9 @@ GP_STEPS = {
                                                                       GenericMutationStep(0.5))], [1, 3]),
     "excl": lambda: ExclusiveParallelStep([ElitismStep(), GenericMutationStep(1.0)], [1, 2]),
     "elite-only": lambda: ElitismStep(),
+    # variation first, then a step that evaluates the offspring through the evaluator and keeps ALL of them
+    "mut-elite": lambda: SequenceStep(GenericMutationStep(1.0), ElitismStep()),
+    "mut-eval": lambda: SequenceStep(GenericMutationStep(1.0), EvaluateStep()),
 }
 
 
@@ -289,6 +295,16 @@ def main():
                                 target=target)
         batch.trace(f"run/{ri}/{alg}/{bk}/{cfg['step']}", ev, cfg)
         stats["events"] += len(ev)
+
+    # every GP step composition for several generations (the sampled runs above often stop inside generation 0)
+    for si, stepname in enumerate(steps):
+        for pop in (3, 5):
+            for mi in (False, True):
+                h = [[x] for x in (5, 1, 9, 3, 11, 7, 2, 12, 4, 10, 6, 8)]
+                ev, cfg = algorithm_run(R, "GP", h, "table", [mi], False, "eval", pop * (4 if quick else 9), "ge" if (si + pop) % 2 else "tree",
+                                        gp_step=stepname, pop=pop)
+                batch.trace(f"run/gens/{stepname}/{pop}/{int(mi)}", ev, cfg)
+                stats["events"] += len(ev)
 
     if a.prop == "C14":
         # step compositions that never emit a fresh individual: the counter cannot move (open finding)
